@@ -215,6 +215,25 @@ theorem recOut_spec (a : RecArgs) (pfx : Str) (parent : PPath) :
     have he : a.output.isEmpty = false := by simpa using ho
     rw [if_neg hs, he]; rfl
 
+/-! ### resolve -/
+
+def collapseStep (acc : List Str) (p : Str) : List Str := if p = ['.', '.'] then acc.tail else p :: acc
+
+theorem collapse_eq_foldl (acc ps : List Str) : collapse acc ps = (ps.foldl collapseStep acc).reverse := by
+  induction ps generalizing acc with
+  | nil => rfl
+  | cons p ps ih =>
+    rw [collapse]
+    split
+    · rename_i hp; rw [ih]; simp [collapseStep, hp]
+    · rename_i hp; rw [ih]; simp [collapseStep, hp]
+
+/-- Going down into `l` (not `..`) and up again is staying where one was. -/
+theorem collapse_snoc_dotdot (acc pre : List Str) (l : Str) (hl : l ≠ ['.', '.']) (tail : List Str) :
+    collapse acc (pre ++ l :: ['.', '.'] :: tail) = collapse acc (pre ++ tail) := by
+  simp only [collapse_eq_foldl, List.foldl_append, List.foldl_cons, collapseStep, hl, if_false, if_true,
+    List.tail_cons]
+
 /-! ### listing -/
 
 theorem lexLe_total : ∀ a b : List Nat, (lexLe a b || lexLe b a) = true
